@@ -40,3 +40,19 @@ CASES += [
     dict(id='c18-constraint-chained-to-check', prop='C18', file='src/library/prog_args/detail/argument_desc.cpp', expect='R7',
          old="      if (mArguments[ i].mpArgObj->hasConstraint())", new="      else if (mArguments[ i].mpArgObj->hasConstraint())"),
 ]
+
+UP = 'src/library/prog_args/detail/usage_params.cpp'
+CASES += [
+    dict(id='c18-usage-short-binds-long', prop='C18', file=UP, expect='R8',
+         old="      DEST_VAR_VALUE( mContents, Contents::shortOnly),", new="      DEST_VAR_VALUE( mContents, Contents::longOnly),"),
+    dict(id='c18-print-deprecated-binds-hidden', prop='C18', file=UP, expect='R8',
+         old="   return handler.addArgument( arg_spec, DEST_VAR( mPrintDeprecated),", new="   return handler.addArgument( arg_spec, DEST_VAR( mPrintHidden),"),
+    dict(id='c18-set-print-hidden-sets-deprecated', prop='C18', file=UP, expect='R8',
+         old="   mPrintHidden = true;", new="   mPrintDeprecated = true;"),
+    dict(id='c18-flag-usage-long-adds-short', prop='C18', file=H, expect='R8',
+         old="      mpUsageParams->addArgumentUsageLong( *this, \"help-long\");", new="      mpUsageParams->addArgumentUsageShort( *this, \"help-long\");"),
+    dict(id='c18-flag-hidden-swapped', prop='C18', file=H, expect='R8',
+         old="   if (flag_set & hfUsageHidden)\n      mpUsageParams->setPrintHidden();", new="   if (flag_set & hfArgHidden)\n      mpUsageParams->setPrintHidden();"),
+    dict(id='c18-eq-flag-test-explicit', prop='C18', file=H, expect=None,
+         old="   if (flag_set & hfUsageHidden)\n      mpUsageParams->setPrintHidden();", new="   if ((flag_set & hfUsageHidden) != 0)\n   {\n      mpUsageParams->setPrintHidden();\n   }"),
+]
